@@ -14,6 +14,12 @@ checks = {
  "C02": dict(level="exploration", ref="DESIGN.md 3 C02",
    text="Seeded schedule search: RingQueue under concurrent pushers/popper at every growth boundary against a per-pusher FIFO oracle, plus whole-system scenarios checking per-sender order at the behaviour across ring growth, immediate-kill-overtakes / poison-kill-after ordering and stash order against a reference slice.",
    technique="deterministic simulation: seeded scheduler, component + whole-system workloads, reference-model comparison"),
+ "C03": dict(level="exploration", ref="DESIGN.md 3 C03",
+   text="Seeded search over whole-system histories with sends racing lifecycle transitions (kill, failure + drawn supervision decision, restart, zombie) through every way of obtaining a reference; a quiescence oracle (the simulator knows when nothing can happen any more) accounts every message id to exactly one of processed / stashed / dead letter, and after Stop checks that further tells cause no work.",
+   technique="deterministic simulation: seeded scheduler + fake clock, quiescence accounting over the recorded history"),
+ "C07": dict(level="exploration", ref="DESIGN.md 3 C07",
+   text="Drawn Start/Stop/cancel sequences (sequential against a reference state machine, and concurrent from 2-3 goroutines) under the seeded scheduler; blocked-forever detection at the horizon names the call and the lock, Stop's duration is measured on the simulated clock, and a leak oracle lists every goroutine of the system still alive after Stop.",
+   technique="deterministic simulation: seeded scheduler, reference state machine, blocked-forever and goroutine-leak oracles"),
  "C05": dict(level="exploration", ref="DESIGN.md 3 C05",
    text="Seeded search over whole-system histories (spawns, tells, failures at OnLaunch / user message / child's OnKilled / scheduled message, drawn supervision decisions, kills, Stop) on a real ActorSystem under the simulated scheduler and clock; every actor's complete behaviour-visible trace is checked per incarnation against the automaton OnLaunch any* [OnKill] OnKilled(self).",
    technique="deterministic simulation: seeded scheduler + fake clock, failure injection at lifecycle sites, per-actor trace automaton"),
